@@ -50,6 +50,34 @@ def e2e(ctx, stream, ncases, clause_prefix):
                           {"stream": "e2e/" + stream, "line": line}, True)
 
 
+def warm(ctx):
+    import checks.C04 as c04check
+    rc, out = ctx.lake_build(["drv_c04"])
+    drv = os.path.join(os.path.dirname(ctx.drv_path), "drv_c04")
+    if rc != 0 or not os.path.exists(drv):
+        ctx.tie_broken("lean-driver-build", out)
+        return
+    keep = (ctx.drv_path, ctx.bin_path)
+    try:
+        if not ctx.go_build(pkg="c04", out_name="c05w"):
+            return
+        ctx.drv_path = drv
+        ctx.diff_stream("warm", ctx.n(600, 12000), oracle=c04check.oracle)
+        g = os.path.join(ctx.work, "warm.gen.ops")
+        if os.path.exists(g):
+            outp = g + ".verdict"
+            rc, log = ctx.harness("oracle", "warm", g, outp)
+            if rc == 0 and os.path.exists(outp):
+                vs = ctx.read_lines(outp)
+                ctx.count("oracle.warm.cases", len(vs))
+                if any(v.startswith("FAIL") for v in vs):
+                    found = c04check.oracle(ctx, "warm", ["case 0 warm"], None)
+                    if found:
+                        ctx.violation(found[0], found[1], found[2], True)
+    finally:
+        ctx.drv_path, ctx.bin_path = keep
+
+
 def run(ctx):
     ctx.rule = ("reconn: random histories of world changes, (re)subscriptions, pushes and stream cuts with reconnects (retained resources, nonces and "
                 "subscriptions kept by the clients; fresh watch tables on the server) for 7 types; e2e: histories on a real FakeDiscoveryServer; "
@@ -81,6 +109,10 @@ def run(ctx):
                     found = c03check.oracle(ctx, stream, ["case 0 %s" % stream], None)
                     if found:
                         ctx.violation(found[0], found[1], found[2], True)
+    # clause "a response to every re-sent subscription so that nothing stays warming": the scripted reconnect order
+    # EDS-before-CDS with a changed cluster set on the real ShouldRespond/Send/NewWatchedResource (harness c04, stream
+    # `warm`), against the C04 model (theorem eds_after_cds_answered_any_names) and the clause oracle
+    warm(ctx)
     if os.path.isdir(os.path.join(os.path.dirname(os.path.dirname(os.path.abspath(__file__))), "harness", "e2e", "READY")) or \
             os.path.exists(os.path.join(os.path.dirname(os.path.dirname(os.path.abspath(__file__))), "harness", "e2e", "READY")):
         if ctx.go_build(pkg="e2e"):
